@@ -195,7 +195,9 @@ func replaceAll(s, old, new string) string {
 			result += new
 			i += len(old) - 1
 		} else {
-			result += string(s[i])
+			// Copy the byte itself: string(s[i]) would turn a UTF-8
+			// continuation byte into the rune of that value.
+			result += s[i : i+1]
 		}
 	}
 	return result
